@@ -286,7 +286,7 @@ fn resolve(w: &mut World, gs: &mut Vec<(usize, VGroup)>, built: &[Built], wi: us
                 let s = s.clone();
                 guarded(|| g.apply_detached_commit(s).map(|_| ()))
             } else if mode == 0 {
-                guarded(|| g.apply_pending_commit().map(|_| ()))
+                guarded(|| g.apply_pending_alt().map(|_| ()))
             } else {
                 let m = msg.clone();
                 guarded(|| g.process_incoming_message(m).map(|_| ()))
@@ -407,7 +407,7 @@ fn resolve(w: &mut World, gs: &mut Vec<(usize, VGroup)>, built: &[Built], wi: us
     // applying with nothing pending is refused
     if let Some((i, g)) = gs.iter_mut().find(|(_, g)| g.current_epoch() == epoch + 1) {
         let before = g.clone();
-        match guarded(|| g.apply_pending_commit().map(|_| ())) {
+        match guarded(|| g.apply_pending_alt().map(|_| ())) {
             Ok(Err(e)) if ek(&e) == "PendingCommitNotFound" => w.out.cov.bump("apply_without_pending_refused"),
             Ok(Err(e)) => w.violate(format!("C11|apply_without_pending_wrong_error|{}", ek(&e)), format!("member {i}")),
             Ok(Ok(())) => {
